@@ -427,10 +427,16 @@ tokenise(const char *ln, size_t lz)
 /* we expect \t separation */
 	struct lst_s *r;
 
-	if (UNLIKELY((r = malloc(sizeof(*r) + lz)) == NULL)) {
+	if (UNLIKELY((r = malloc(sizeof(*r) + lz + 1U)) == NULL)) {
 		return NULL;
 	}
-	/* just have him point to something */
+	/* the name after the last separator is an empty one */
+	r->str[lz] = '\0';
+	/* just have him point to something,
+	 * lines with too few fields leave empty names behind */
+	for (size_t j = 0U; j < countof(r->s); j++) {
+		r->s[j] = "";
+	}
 	r->s[1U] = r->str;
 	r->min = -1ULL;
 	r->max = 0ULL;
@@ -459,7 +465,7 @@ snarf_ln(struct loc_s *restrict tgt, const char *buf, size_t bsz)
 	const char *bp;
 	const char *ep;
 	struct lst_s *x;
-	struct loc_s r;
+	struct loc_s r = {NULL, NULL, NULL, NULL};
 
 	/* first one */
 	bp = buf;
